@@ -50,6 +50,7 @@ ASSUMPTIONS = [
     "A2: device_id is 6 hex digits (3 bytes), device_key is 2 hex digits (1 byte)",
     "A3: schedule_id is one hex digit; position in [0,100]; target temperature in [0,255]",
     "A4: 0 <= time.time() < 2**32 (struct.pack('<I') of the clock cannot overflow)",
+    "A5: the IR text Para|HexCode is 1..2000 bytes long (the property's quantifier)",
 ]
 
 
@@ -67,8 +68,33 @@ def sig_stub(I: Interp, args: List[Term], kwargs: Dict[str, Term], st: State, ct
     return T.seq(s[1], s[2] + (("sig", s),))
 
 
+REMOTES = "aioswitcher.api.remotes"
+
+
+def _ir_command_stub(kind: str):
+    """Summary of SwitcherBreezeRemote.build_command / build_swing_command (decided by C15):
+    returns SwitcherBreezeCommand("00000000" + hexlify(<ASCII IR text>)); the call and its
+    arguments are recorded as an event; the real SwitcherBreezeCommand constructor is interpreted."""
+
+    def stub(I: Interp, args: List[Term], kwargs: Dict[str, Term], st: State, ctx: Ctx, node: ast.AST) -> Term:
+        st.events.append(Event("call", f"remote.{kind}", tuple(args[1:]), tuple(sorted(kwargs.items())), ctx.loc(node), ctx.fi.key if ctx.fi else "", False, None, len(st.pc)))
+        st.may_raise("RuntimeError", ("ext", f"{kind}: unsupported mode / missing IR key"), ctx.loc(node))
+        st.may_raise("KeyError", ("ext", f"{kind}: IR key missing"), ctx.loc(node))
+        n = st.fresh("irtext")
+        ir = ("sym", n, ("bytesr", 1, 2000))
+        cmd = T.seq("s", (("L", "00000000"), ("hx", ir, 0, None)))
+        ci = I.prog.cls(f"{REMOTES}:SwitcherBreezeCommand")
+        return I.call_user_nested(("class", ci), [cmd], {}, st, ctx, node)
+
+    return stub
+
+
 def make_interp(prog: Program, summarise_sign: bool = True, extra_stubs: Optional[Dict[str, Any]] = None) -> Interp:
     stubs: Dict[str, Any] = {}
+    prog.func(f"{REMOTES}:SwitcherBreezeRemote.build_command")
+    prog.func(f"{REMOTES}:SwitcherBreezeRemote.build_swing_command")
+    stubs[f"{REMOTES}:SwitcherBreezeRemote.build_command"] = _ir_command_stub("build_command")
+    stubs[f"{REMOTES}:SwitcherBreezeRemote.build_swing_command"] = _ir_command_stub("build_swing_command")
     if summarise_sign:
         prog.func(f"{TOOLS}:sign_packet_with_crc_key")
         stubs[f"{TOOLS}:sign_packet_with_crc_key"] = sig_stub
